@@ -112,6 +112,15 @@ class World(object):
                 return False
             self.sections.append(self.out.section())
             self.model.append([])
+            if self.ansi and len(self.sections) == 1:
+                # an unrelated decorated output gets a section with content right after this output's first
+                # section: sections of another output are nobody's business here
+                from clikit.api.io import Output
+                from clikit.formatter import AnsiFormatter
+                from clikit.io.output_stream import BufferedOutputStream
+
+                self.decoy = Output(BufferedOutputStream(), AnsiFormatter(forced=True)).section()
+                self.decoy.write_line("decoy line of another output")
             return True
         s = op[1]
         if s >= len(self.sections):
